@@ -1,6 +1,6 @@
 python3 - <<'P'
 p='src/geckolib/utils/snapshot.py'
 s=open(p).read()
-s2=s.replace(r"""(r"\[([0-9A-Fa-fx\\' ,]*)\]", self._re_data)""", r"""(r"\[([0-9A-Fx\\' ,]*)\]", self._re_data)""")
+s2=s.replace("[0-9A-Fa-f]+", "[0-9A-F]+")
 assert s2!=s; open(p,'w').write(s2)
 P
